@@ -165,6 +165,30 @@ func c06Misc(which int) c06Step {
 	return c06Step{"SetEncap()", func(cd *stackage.Condition, m *c06Model) (string, bool) { cd.SetEncap(); return "", false }}
 }
 
+// c06ReInit: Init() on a live Condition detaches THIS handle; a copy of the handle taken earlier (and the same Condition
+// held by a Stack) keeps answering with what it had accepted.
+func c06ReInit(c *core.Ctx, log *[]string) c06Step {
+	return c06Step{"copy handle; Init()", func(cd *stackage.Condition, m *c06Model) (string, bool) {
+		held := *cd
+		parent := stackage.And().Push(held, "sibling")
+		before, _ := Take(held)
+		pbefore, _ := Take(parent)
+		cd.Init()
+		*m = c06Model{}
+		cd.SetKeyword("fresh")
+		m.kw = "fresh"
+		after, _ := Take(held)
+		pafter, _ := Take(parent)
+		if d := Diff(before, after, DiffOpts{}); d != "" {
+			c.Violate("second-handle:Init", "a copy of the handle taken before Init() changed: "+d+" after ["+strings.Join(*log, "; ")+"]", map[string]any{"calls": *log})
+		} else if d := Diff(pbefore, pafter, DiffOpts{}); d != "" {
+			c.Violate("second-handle:Init", "a Stack holding the Condition changed when another handle was re-initialised: "+d+" after ["+strings.Join(*log, "; ")+"]", map[string]any{"calls": *log})
+		}
+		c.Count("re-init-with-second-handle")
+		return "", false
+	}}
+}
+
 // the 10-symbol alphabet of the exhaustive part
 func c06Symbol(i int) c06Step {
 	switch i {
@@ -321,6 +345,10 @@ func c06Run(c *core.Ctx, idx int) {
 	log := []string{first}
 	if !c06Check(c, cd, m, log, "start") {
 		return
+	}
+	if idx >= exh && r.Chance(1, 5) && len(steps) > 2 {
+		at := r.Range(1, len(steps)-1)
+		steps = append(steps[:at], append([]c06Step{c06ReInit(c, &log)}, steps[at:]...)...)
 	}
 	accepted := map[string]bool{}
 	nontrivial := false
